@@ -65,7 +65,44 @@ def big_index_events(rec, iindex, tier, seed):
         if idx2 is not None:
             rec.collapsed(idx2, [5, 4, 3, 2, 1, 0])
             rec.collapsed(idx2, [2, 0])
+    # wide receivers (more columns than one byte counts) through the INDX file format and back: the largest coordinate is a
+    # column number, and it does not sit in the entry with the largest category
+    for ncols in (257, 300):
+        dense = np.zeros((3, ncols), dtype=object)
+        dense[0, 5] = 9
+        dense[1, ncols - 1] = 1
+        dense[2, 256] = 2
+        dense[2, 255] = 1
+        wide = canonical(iindex, dense, 0)
+        rec.indx_roundtrip(wide)
     return {"sizes": sizes, "constants": consts}
+
+
+def near_tie_events(rec, iindex, tier, seed):
+    """the library's own choice of common value when the two most frequent values are one cell apart or level, for every
+    cell count up to 80 (a count reconstructed through a rounded ratio is off by one for a few sizes only)"""
+    rnd = random.Random(seed)
+    for n in range(2, 81 if tier == "quick" else 201):
+        for lead in (1, 0):
+            hi, lo = (n + lead + 1) // 2, n - (n + lead + 1) // 2
+            if lo < 1:
+                continue
+            shape = (n,) if (n % 2 or rnd.random() < 0.5) else (n // 2, 2)
+            a, b = rnd.sample([0, 1, 2, 5], 2)
+            if lead and a > b:
+                a, b = b, a                      # the runner-up has the larger key
+            cells = [a] * hi + [b] * lo
+            rnd.shuffle(cells)
+            dense = np.array(cells, dtype=object).reshape(shape)
+            for start in (a, b, 7):
+                idx = canonical(iindex, dense, start)
+                which = rnd.choice(["shift", "append", "filtered"])
+                if which == "shift":
+                    rec.shift_common(idx)
+                elif which == "append":
+                    rec.append(idx, canonical(iindex, np.zeros((0,) + shape[1:], dtype=object), 7))
+                else:
+                    rec.filtered(idx, [True] * shape[0])
 
 
 class Chains:
@@ -118,7 +155,7 @@ class Chains:
             # an operation's result stays in play while the dense array it stands for is well defined - also when the
             # library has left an entry without rows behind (C07's business at that step, but what later operations
             # make of it is part of this history)
-            pool = [p for p in pool if wellformed(p, allow_empty=True)]
+            pool = [p for p in pool if wellformed(p, allow_empty=True) and self._same_kind(p, U)]
             if not pool:
                 pool = [self.rand_index(U, shape)]
             idx = rnd.choice(pool)
@@ -129,12 +166,19 @@ class Chains:
                 if len(pool) > 4:
                     pool.pop(rnd.randrange(len(pool) - 1))
 
+    @staticmethod
+    def _same_kind(idx, U):
+        """steering only: an index whose values are no longer of the universe's kind (strings turned into integers by a
+        faulty operation - that event is judged on its own) cannot be steered any further"""
+        want = str if isinstance(U[0], str) else (int, np.integer)
+        return isinstance(idx.common, want) and all(isinstance(k[0], want) for k in dict.keys(idx))
+
     def ops_for(self, idx, big, strs=False):
         nd = len(idx.shape)
         ops = ["shift_common", "shift_common_v", "append", "update", "filtered", "copy", "reindexed_map",
                "column_stack", "set_update", "get", "items", "common_rowids", "abscissae", "eq", "to_array",
                "append", "update", "filtered", "reindexed_map"]
-        ops += ["extra", "sliced_noargs", "alias"]
+        ops += ["extra", "sliced_noargs", "alias", "indx"]
         if not big:
             ops += ["reindexed_default", "sparsity", "cube_shape"]
         if nd == 2:
@@ -215,6 +259,8 @@ class Chains:
         rnd = self.rnd
         au = rnd.random() < 0.2
         m = self._mapping(idx, U, unique=au)
+        if rnd.random() < 0.1:
+            m = {}                         # an explicit mapping that maps nothing is the identity, not "no mapping given"
         return self.rec.reindexed(idx, m, copy=rnd.random() < 0.7, shift=rnd.random() < 0.8, assume_unique=au)
 
     def op_reindexed_default(self, idx, U):
@@ -317,6 +363,10 @@ class Chains:
                 src = canonical(self.iindex, np.where(dense_of(idx) == idx.common, dense_of(other), idx.common), idx.common) \
                     if idx.shape[0] and all(idx.shape) else idx
             self.rec.set_update(idx, which, [(k, np.asarray(v).tolist()) for k, v in dict.items(src)], from_index=src)
+
+    def op_indx(self, idx, U):
+        if all(isinstance(k[0], int) and k[0] >= 0 for k in dict.keys(idx)) and isinstance(idx.common, int) and idx.common >= 0:
+            return self.rec.indx_roundtrip(idx)       # the file format stores unsigned integers
 
     def op_get(self, idx, U):
         rnd = self.rnd
